@@ -453,7 +453,7 @@ namespace Dune {
     //! Vector negation
     derived_type operator- () const
     {
-      V result;
+      V result = asImp();
       using idx_type = typename decltype(result)::size_type;
 
       for (idx_type i = 0; i < size(); ++i)
